@@ -317,6 +317,27 @@ pub fn check_frequency(code: &[u8], interval: usize) -> Result<Vec<(String, u64,
         Ok(Some((w.polls.get(), vm.consume())))
     });
     let Ok(Ok(Some((vm_polls, result)))) = r else { return Ok(report) };
+    // whatever the control flow (loops, forks, jumps): without bulk-copy instructions the only polling loop of the VM is
+    // its main loop, so the polls at interval k must track the iterations, which the same run at interval 1 counts
+    if interval > 1 && copy_ops(code) == 0 {
+        let (r1, _) = with_controller(&Vec::new(), || -> Option<u64> {
+            let stream = InstructionStream::try_from(code).ok()?;
+            let w = CountingWatchdog::new(1, None);
+            let mut vm = VM::new(stream, sle::vm::Config::default().with_permissive_errors(true), w.clone()).ok()?;
+            let _ = vm.execute();
+            Some(w.polls.get())
+        });
+        if let Ok(Some(p1)) = r1 {
+            let k = interval as u64;
+            let (lo, hi) = ((p1 / k).saturating_sub(1), (p1 + k - 1) / k + 1);
+            if vm_polls < lo || vm_polls > hi {
+                return Err(Verdict {
+                    key: format!("frequency:vm-main-loop:{}", if vm_polls < lo { "too-few" } else { "too-many" }),
+                    what: format!("the VM's main loop makes {p1} iterations; at poll interval {interval} it polled {vm_polls} times (expected {lo}..={hi})"),
+                });
+            }
+        }
+    }
     if !has_jump && !x.loops && !x.capped {
         // instructions executed = nodes of the trie of reference paths
         let mut trie: BTreeSet<Vec<u32>> = BTreeSet::new();
